@@ -653,7 +653,7 @@ func ruleJobsWire(p *Prog, r *RuleResult) {
 			}
 		})
 	}
-	helpers := ctxHelpers(p)
+	helpers := ctxHelpersDeep(p)
 	for f := range scopeFns {
 		eachInstr(f, func(i ssa.Instruction) {
 			c, ok := i.(*ssa.Call)
